@@ -50,9 +50,21 @@ func genPkt4(r *Rng, inDomain bool) *dhcpv4.DHCPv4 {
 		p.OpCode = dhcpv4.OpcodeType(1 + r.Intn(2))
 	}
 	p.HWType = iana.HWType(r.Intn(256))
-	hwl := r.Range(0, 16)
 	if r.Chance(1, 2) {
+		// registered hardware types, Ethernet most of the time: code that treats one
+		// of them specially (an address length implied by the type, ...) shows only
+		// when type and address length coincide (seeded change C01-12)
+		p.HWType = iana.HWType(r.Pick([]int{1, 1, 1, 1, 6, 32, 0, 15, 20, 24, 27, 255}))
+	}
+	hwl := r.Range(0, 16)
+	switch r.Intn(4) {
+	case 0, 1:
 		hwl = 6
+	case 2:
+		hwl = r.Pick([]int{0, 0, 1, 5, 7, 8, 15, 16, 20})
+		if hwl > 16 {
+			hwl = 0
+		}
 	}
 	if !inDomain && r.Chance(1, 6) {
 		hwl = r.Range(17, 24)
